@@ -195,5 +195,5 @@ def run(chk):
     chk.guard('C16.P', c16.check_parser_total, chk)
     chk.rule('C09.I', 'shared with C09: the expression helpers forward / write back the options (C19.O)')
     before = len(chk.instances)
-    chk.guard('C09.I', c09.check_identity, chk)
+    c09.check_identity_with_sim(chk)
     chk.instances[before:] = [i for i in chk.instances[before:] if i['instance'].startswith('data.') or i['verdict'] != 'OK']
